@@ -130,6 +130,19 @@ CLAIMED = {
             'cancellation in log(1-exp(-x))). One recorded finding: an event in a zero-rate bin yields a finite value '
             '(known_findings.json).',
             '5/C16'),
+    'C07': ('TLA+ spec of the tail events as outcome intervals (NumberTest.tla): TLC proves the eps-shifted cdf expressions '
+            'denote {N>=n} and {N<=n}, the sum identity and monotonicity; per evaluation TLC states the interval each delta '
+            'is the mass of, the harness evaluates that mass at 50 digits; empirical laws and monotonicity are decided by TLC '
+            'on exact numerators / float ranks',
+            'TLC checks ImplMatchesSpec, InclusiveTails, SumIdentity, EmpiricalExact, MonotoneInN for n = 0..6 and every '
+            'multiset of <= 5 synthetic-catalog sizes. The real Poisson, negative-binomial and catalog number tests are run for '
+            'n_obs 0..6 x forecast totals 1e-6..1e5 (also after scale()), counts up to 1e5 around the mean, NBD variances from '
+            '1.0000001 x mean to 1e6, random size multisets with ties; every (delta1, delta2) must equal the mass of the '
+            'TLC-given interval (pmf recurrence at 50 digits), lie in [0,1], be exact multiples of 1/n_cat for the empirical law '
+            'and be monotone along increasing means.',
+            'Accuracy of scipy tails decided against mpmath (rtol 1e-9 + conditioning term for NBD, atol 2e-12). Trusted: '
+            'pmf recurrences in vh/drivers/c07.py.',
+            '5/C07'),
 }
 
 NOT_YET = 'check not built yet in this round (specification planned in DESIGN.md section 5); not claimed until it exists'
